@@ -234,6 +234,14 @@ class Gen:
             k = r.choice(HOLD) if allow_hold and r.chance(2, 5) else r.choice(SYNC + ["null"] if r.chance(1, 12) else SYNC)
             if k == "time_limit" and "time_limit" in self.kinds:
                 continue
+            # outside what the detailed layer predicts reliably (five false alarms of the thorough tier were of
+            # these two kinds): two pump-driven holding pipes in one network (how many turns of the loop drain two
+            # chained upipe_buffer after max_size was lowered), and upipe_tblk together with upipe_time_limit (in
+            # which order a sink answers their requests after re-plumbing moved the registrations)
+            if k in ("buffer", "disblo") and self.kinds & {"buffer", "disblo"}:
+                continue
+            if (k == "tblk" and "time_limit" in self.kinds) or (k == "time_limit" and "tblk" in self.kinds):
+                continue
             if k == "nodemux" and self.kinds & {"delay", "noclock", "setrap", "time_limit"}:
                 continue
             if k in ("delay", "noclock", "setrap", "time_limit") and "nodemux" in self.kinds:
@@ -909,6 +917,7 @@ def run(ctx):
         "event loop = mock vloop over the real upump_common.c, clock = virtual time of that loop; nothing fires unless the script says so (in-thread property)",
         "the blocking sink of the harness behaves like a real sink: it keeps what it receives while blocked and blocks the pump that produced it",
         "one upipe_time_limit per generated network; upipe_trickplay, upipe_rate_limit, upipe_genaux are not covered",
+        "random networks hold at most one pump-driven holding pipe (upipe_buffer / upipe_discard_blocking) and not both a upipe_tblk and a upipe_time_limit: there the detailed layer mis-predicted five executions of the thorough tier (turns of the event loop needed to drain two chained buffers after max_size was lowered; order in which a sink answers requests after re-plumbing) - false alarms; the exhaustive families (chain2, tblk, time, buffer) still cover these combinations for the behaviours TLC emits",
     ]
     ctx.trusted += ["TLC", "harness/pipe_driver.c + pipe_registry.c + pd_ext_c05.c (command interpreter, recording sinks, tracking uref managers)",
                     "harness/vloop.c (mock event loop)", "gcc AddressSanitizer / UndefinedBehaviorSanitizer / LeakSanitizer"]
